@@ -7,7 +7,7 @@
    helpers copy the count back) and the seeded mutant C09-m2 (arraySort swallowing the budget error) are about; the
    correspondence and the direct oracle exercise them on the real library. *)
 From Coq Require Import ZArith.
-From BS Require Import Model.Base Model.Num Model.Arith Model.ExprParser Model.Script Model.Interp Model.LibCore Proofs.C09.
+From BS Require Import Model.Base Model.Num Model.Arith Model.ExprParser Model.Script Model.Interp Model.LibCore Model.LibAll Proofs.C09 Proofs.LibAll.
 Local Open Scope Z_scope.
 
 (* EXACT (1): the limit is tested at the head of every statement, after counting it: with L statements started, statement
@@ -60,6 +60,10 @@ Print Assumptions C09_limit_at_or_above_N_is_invisible.
 Theorem C09_premises_hold_for_modelled_library : forall cfg, lib_monotone (libcore cfg) /\ lib_lockstep (libcore cfg) cfg.
 Proof. intros cfg. split; [exact (libcore_monotone cfg)|exact (libcore_lockstep cfg)]. Qed.
 Print Assumptions C09_premises_hold_for_modelled_library.
+
+Theorem C09_premises_hold_for_combined_library : forall cfg, lib_monotone (libfull cfg) /\ lib_lockstep (libfull cfg) cfg.
+Proof. intros cfg. split; [exact (libfull_monotone cfg)|exact (libfull_lockstep cfg)]. Qed.
+Print Assumptions C09_premises_hold_for_combined_library.
 
 (* "no script runs forever": with a positive limit the counter bounds the number of statements that start
    (C09_abort_exactly_at_limit + C09_every_started_statement_counts); that the FUEL of the model run then always suffices
